@@ -2,9 +2,9 @@ package props
 
 import (
 	"fmt"
-	"strings"
 	"go/token"
 	"go/types"
+	"strings"
 
 	"golang.org/x/tools/go/ssa"
 
@@ -171,6 +171,12 @@ func taintClosure(src map[ssa.Value]bool) (all map[ssa.Value]bool, raw map[ssa.V
 				visit(x, isRaw && !lossy(x))
 			case *ssa.ChangeType:
 				visit(x, isRaw)
+			case *ssa.Call:
+				// min/max select one of their operands: the result is as tainted as they are
+				// (whether a constant operand bounds it is decided at the sink)
+				if bi, ok := x.Call.Value.(*ssa.Builtin); ok && (bi.Name() == "min" || bi.Name() == "max") {
+					visit(x, false)
+				}
 			}
 		}
 	}
@@ -514,7 +520,11 @@ func taintScan(p *Program, pkgs map[string]bool) []taintFinding {
 						// min(x, const)
 						if call, isCall := Unwrap(sz).(*ssa.Call); isCall {
 							if bi, isB := call.Call.Value.(*ssa.Builtin); isB && bi.Name() == "min" {
-								ok, why = true, "min() with bound"
+								for _, a := range call.Call.Args {
+									if _, isK := a.(*ssa.Const); isK || !all[a] {
+										ok, why = true, "min() with an input-independent bound"
+									}
+								}
 							}
 						}
 					}
